@@ -47,6 +47,15 @@ def generate(rng, tier, index):
     T = spec["steps"]
     spec["init_seed"] = int(rng.integers(0, 2**31)) if rng.uniform() < 0.5 else None
     spec["loop"] = {"replica": int(rng.integers(0, 3)), "cut": int(rng.integers(1, T)) if rng.uniform() < 0.7 else None}
+    # the three descriptions also differ by a translation (uniform policy centred on 0, explicit edges starting at 0, quasi-uniform
+    # policy centred on a random point); one raw field detector is placed by its physical position *relative to the domain
+    # centre* and its physical size, and in 60% of the scenes the volume itself is given by its physical size
+    shape = spec["shape"]
+    spec["quasi_center"] = [float(rng.uniform(-3, 3) * s * n) for n in shape]
+    spec["volume_real"] = bool(rng.uniform() < 0.6)
+    box = specgen.rand_box(rng, shape, min_size=1, max_size=3)
+    spec["detectors"].append({"kind": "field", "name": "dreal", "box": box, "exact": False, "reduce": False, "components": specgen.rand_components(rng),
+                              "real_place": {"center": [((b[0] + b[1]) / 2.0 - n / 2.0) * s for b, n in zip(box, shape)], "size": [(b[1] - b[0]) * s for b in box]}})
     return spec
 
 
@@ -62,6 +71,10 @@ def grid_variant(spec, kind):
     s = copy.deepcopy(spec)
     sp = spec["grid"]["spacing"]
     s["grid"] = {"kind": "uniform", "spacing": sp} if kind == "uniform" else {"kind": "rect_uniform", "spacing": sp} if kind == "rect_uniform" else {"kind": "quasi", "d": [sp, sp, sp]}
+    if kind == "rect_uniform":
+        s["grid"]["center"] = [n * sp / 2.0 for n in spec["shape"]]  # edges start at 0
+    elif kind == "quasi":
+        s["grid"]["center"] = list(spec.get("quasi_center", (0.0, 0.0, 0.0)))
     return s
 
 
@@ -70,10 +83,24 @@ def execute(spec):
     from fdsim import driver as dr
 
     ra = rp.base_arrays(spec)
-    try:
-        scenes = [rp.build(grid_variant(spec, g), ra) for g in GRIDS]
-    except (ValueError, NotImplementedError) as e:
-        return rp.rejected(e)
+    scenes, errors = [], {}
+    for g in GRIDS:
+        try:
+            scenes.append(rp.build(grid_variant(spec, g), ra))
+        except (ValueError, NotImplementedError) as e:
+            errors[g] = e
+    if errors and len(errors) < len(GRIDS):
+        # the same scene is accepted under one grid description and refused under another: the descriptions are not equivalent
+        mon = rp.Monitors()
+        mon.violations.append({"monitor": "scene_refused_under_one_grid_description", "step": 0, "metric": "placement outcome per description", "value": {g: ("ok" if g not in errors else str(errors[g])[:160]) for g in GRIDS}, "tolerance": "same outcome"})
+        return rp.finish(mon, {"sim_steps": 0, "sim_time_fs": 0.0}, True, specgen.scene_signature(spec, "refused"), {"E": np.zeros(1)})
+    if errors:
+        return rp.rejected(next(iter(errors.values())))
+    shapes = [tuple(s.shape) for s in scenes]
+    if any(sh != tuple(spec["shape"]) for sh in shapes):  # a description that resolves to another cell count is not "the same simulation"
+        mon = rp.Monitors()
+        mon.violations.append({"monitor": "resolved_cell_count", "step": 0, "metric": "shape", "value": [list(x) for x in shapes], "tolerance": list(spec["shape"])})
+        return rp.finish(mon, {"sim_steps": 0, "sim_time_fs": 0.0}, True, specgen.scene_signature(spec, "shape"), {"E": np.zeros(1)})
     T = scenes[0].T
     if any(s.T != T for s in scenes):
         raise rp.env.HarnessError(f"replicas disagree on the number of steps: {[s.T for s in scenes]}")
@@ -81,6 +108,13 @@ def execute(spec):
     stats = {"sim_steps": 0, "sim_time_fs": 0.0, **rp.common_probes(spec)}
     stats["probe_library_flags_nonuniform"] = int(any(s.config.has_nonuniform_grid for s in scenes))
     stats["probe_ragged_spacing"] = int(round(spec["grid"]["spacing"] * 1e14) != spec["grid"]["spacing"] * 1e14)
+    for d_ in spec["detectors"]:
+        if d_.get("real_place"):
+            got = [[list(x) for x in s.objects[d_["name"]].grid_slice_tuple] for s in scenes]
+            if any(g != [list(b) for b in d_["box"]] for g in got):
+                mon.violations.append({"monitor": "object_placed_by_physical_position_on_other_cells", "step": 0, "metric": "grid slices per grid description", "value": got, "tolerance": d_["box"], "descriptions": list(GRIDS)})
+            stats["probe_real_placed_detector"] = 1
+    stats["probe_volume_by_physical_size"] = int(bool(spec.get("volume_real")))
     dts = [s.dt for s in scenes]
     mon.check("time_step_duration", 0, max(abs(d - dts[0]) for d in dts) / dts[0], TOL)
 
